@@ -25,6 +25,7 @@ from vlib.val import line, Word
 from vlib.compare import diff, Err, exc_kind, is_err
 
 ID = 'C05'
+PYOBJECT_METHODS = ['raise_order', 'raise_order_dir', 'raise_order_implicit', 'set_order', 'lower_order', 'order', 'order_dir']   # splineobject.py methods re-translated and proved equal to the hand model each run
 PYBASIS_METHODS = ['raise_order', 'lower_order', 'knot_spans', 'continuity', 'greville']   # basis.py methods re-translated and proved equal to the hand model each run
 # theorems of this property stated for the object evaluator `Obj.evaluate` (bridge through C02)
 EXTRA_THEOREMS = [('Splipy.Properties.Bridge', 'Splipy/Properties/Bridge.lean', 'Bridge_C05_')]
